@@ -236,6 +236,11 @@ func (t *w1Transport) RoundTrip(req *http.Request) (*http.Response, error) {
 	switch fate {
 	case w1Fate500:
 		record(fate, false)
+		if (uint64(sec)+uint64(seq)+uint64(idx))%3 == 0 {
+			// not ClickHouse itself but a proxy in front of it: 502 without the exception header
+			return &http.Response{StatusCode: http.StatusBadGateway, Status: "502 Bad Gateway", Proto: "HTTP/1.1", ProtoMajor: 1, ProtoMinor: 1,
+				Header: http.Header{}, Body: io.NopCloser(strings.NewReader("<html>502 Bad Gateway (w1 fake proxy)</html>")), Request: req}, nil
+		}
 		h := http.Header{}
 		h.Set("X-ClickHouse-Exception-Code", "241")
 		return &http.Response{StatusCode: http.StatusInternalServerError, Status: "500 Internal Server Error", Proto: "HTTP/1.1", ProtoMajor: 1, ProtoMinor: 1,
